@@ -114,7 +114,9 @@ unsafe fn apply_or_drop_queued(q: *mut CommandQueue, world: &mut World) {
             world.flush();
         }
     }
-    (*q).cmds.truncate(start);
+    // every entry in [start, ..) has been taken (is None): pop and forget them instead of `truncate`, whose drop glue for
+    // `Option<Box<dyn AnyCommand>>` would make CBMC consider the drop of every command type of the crate here
+    while (*q).cmds.len() > start { let x = (*q).cmds.pop(); core::mem::forget(x); }
     (*q).cursor = start;
 }
 
@@ -157,7 +159,12 @@ impl World {
     pub fn contains_resource<R: Resource>(&self) -> bool { self.res_pos(TypeId::of::<R>()).is_some() }
     pub fn insert_resource<R: Resource>(&mut self, r: R) {
         match self.res_pos(TypeId::of::<R>()) {
-            Some(p) => self.resources[p].1 = Box::new(r),
+            Some(p) => {
+                // replace: the old value is dropped as an `R` (the key says so), not through the `dyn Any` vtable - a dynamic
+                // drop makes CBMC consider the drop glue of every resource type of the crate at this site.
+                let old = core::mem::replace(&mut self.resources[p].1, Box::new(r));
+                unsafe { drop(Box::from_raw(Box::into_raw(old) as *mut R)); }
+            }
             None => self.resources.push((TypeId::of::<R>(), Box::new(r))),
         }
     }
@@ -169,7 +176,8 @@ impl World {
     pub fn remove_resource<R: Resource>(&mut self) -> Option<R> {
         let p = self.res_pos(TypeId::of::<R>())?;
         let (_, b) = self.resources.remove(p);
-        Some(*b.downcast::<R>().ok().unwrap())
+        // typed unboxing (the key says the value is an `R`); `downcast().ok()` would statically contain a dynamic drop
+        Some(unsafe { *Box::from_raw(Box::into_raw(b) as *mut R) })
     }
     pub fn get_resource<R: Resource>(&self) -> Option<&R> {
         let p = self.res_pos(TypeId::of::<R>())?;
@@ -219,7 +227,11 @@ impl World {
     pub(crate) fn insert_component<C: Component>(&mut self, e: Entity, c: C) {
         if !self.entities.contains(e) { return; }
         let entry = Some((e.index, TypeId::of::<C>(), Box::new(c) as Box<dyn Any>));
-        if let Some(p) = self.comp_pos(e, TypeId::of::<C>()) { self.comps[p] = entry; return; }
+        if let Some(p) = self.comp_pos(e, TypeId::of::<C>()) {
+            // typed drop of the replaced value (see insert_resource)
+            if let Some((_, _, old)) = core::mem::replace(&mut self.comps[p], entry) { unsafe { drop(Box::from_raw(Box::into_raw(old) as *mut C)); } }
+            return;
+        }
         let mut i = 0;
         while i < self.comps.len() { if self.comps[i].is_none() { self.comps[i] = entry; return; } i += 1; }
         self.comps.push(entry);
@@ -229,7 +241,7 @@ impl World {
         let p = self.comp_pos(e, TypeId::of::<C>())?;
         let (_, _, b) = self.comps[p].take().unwrap();
         self.removed.push((TypeId::of::<C>(), e));
-        Some(*b.downcast::<C>().ok().unwrap())
+        Some(unsafe { *Box::from_raw(Box::into_raw(b) as *mut C) })
     }
     pub fn get<C: Component>(&self, e: Entity) -> Option<&C> {
         if !self.entities.contains(e) { return None; }
